@@ -14,6 +14,7 @@ RULE = ("Generated: three state types, n 1..5 (density 1..4), nh 1..4, na 1..3, 
         "library's documented spin convention outcome 0 -> -1, 1 -> +1). Non-trivial = all biases non-zero and, for complex/"
         "density states, |<Y>| > 1e-6.")
 RULE_EXT = ('Extended as built: the same observable object is applied three times (results must agree), batches of up to 25003 rows (row i must equal the value of its basis state), n up to 8 for pure states. Round 6: signed -> absolute -> signed evaluations of the same batch back to back by objects of the same class.')
+RULE_EXT += ' Round 10 (after an exception / long time axis): the same configurations first handed over as float32 / int64 (refused or not), then converted to double and evaluated; 60 further applications of one observable object on one batch.'
 RULE = RULE + " " + RULE_EXT
 ASSUMPTIONS = ["Z / ZZ use the library's own to_pm1 convention (0 -> -1); asserting the textbook |0> -> +1 would demand what the code never claims",
                "absolute tolerance 1e-7 on expectation values (all are O(1))"]
